@@ -13,6 +13,10 @@ CHECKS = {
          "Every state reachable by <= L postings of `t1 == t2` / `t1 != t2` over the term alphabet is compared, on every transition, with the order-free set of posted goals by tabulating ground instances over a finite universe; every distinct state's history is re-run as a public query under every hash-order schedule with <= d deviations; programs with conde and hidden fresh variables are compared with reference paths.",
          "Finite universe (constants, fresh atoms, short lists): can miss but never invent a difference; L=2,d=1 quick / L=3,d=2 thorough.",
          "4/C02"),
+ "C04": ("bounded-exhaustive programs executed in every permutation of every conjunction/disjunction x schedules (E3 x E2)",
+         "Pure programs (literals, conde 2-3 arms, nested conde, Disj chains, fresh with hidden variables), FD programs (T1/T2) and mixed conde+FD programs are executed in every permutation of every conjunction, conde arm list and arm body (<= 4 children; simultaneous permutations capped); answer multisets (instance sets over a finite universe / FD tuples) agree across permutations and with the order-free reference or brute force; FD variants also under hash-order schedules.",
+         "Permutation products capped at 200/120 variants per program; finite universe for instance sets.",
+         "4/C04"),
  "C05": ("exhaustive engine exploration with scripted leaf goals, ordered reference interpreter (E4)",
          "Every goal-tree shape up to the leaf bound over DFSConj/cond/DFSDisj/fresh/closure with scripted leaves (answer / lazy-step scripts in three stream encodings), DFS-typed at top level, under dfs{} in a BFS parent and as a conjunct: the answer sequence equals the reference depth-first interpreter's position by position.",
          "Leaf bound 3 (quick) / 4 (thorough); scripts up to length 3; leaves are harness goals built from the public Stream constructors.",
@@ -29,6 +33,10 @@ CHECKS = {
          "All conda/condu clause lists of 1-3 clauses and onceo bodies whose heads/rests are scripted (0/1/many answers, lazily produced, infinite, diverging) are compared with the soft-cut / committed-choice semantics; the head's first answer in engine order is obtained from the engine by running the head alone.",
          "Heads are leaves or two-leaf conde/conj/disj trees; matcha/matchu share Conda/Condu::from_conjunctions (their surface form is covered by C13).",
          "4/C08"),
+ "C09": ("E2 schedule exploration for determinism + bounded-liveness runs through the public iterator (E2 + E4)",
+         "(a)(b) every disjunction of 1-3 branches from finite goals, loop{} producers, loop{false} divergers, nested conde, producers behind closures, at top level / under fresh / after an always-like prefix / as binary Disj, through Query::run: take(n) delivers n answers within the step budget whenever n exist; finite programs end with exactly their answers and stay ended. (c) FD programs with >= 2 constraints, hidden-FD-variable programs and multi-binding disequality programs run twice unscheduled and under every schedule of all 8 hooked hash-iteration sites with <= d deviations plus all-reversed: identical canonical answer sequences.",
+         "A second OS process is not steered; iteration orders are enumerated at the hooked sites instead (superset up to the deviation bound). d=1 quick / 2 thorough.",
+         "4/C09"),
  "C16": ("bounded-exhaustive FD programs x deviation-bounded hash-order schedules vs brute force (E3 x E2)",
          "Every program of three FD tiers (one constraint: all kinds x all operand patterns/aliasings/constants x all domain assignments x all statement orders; two-three constraints mixed with ==, pre-bound and fully ground operands; answers shaped as lists/compounds, hidden variables, conde) is run under every schedule of the hash-ordered iterations with <= d deviations plus all-reversed; every answer must be a brute-force solution.",
          "Domains inside [-2, 3]; d=1 quick (T1) / 2; well-formed programs only (every FD operand has a domain or is an integer).",
@@ -41,6 +49,10 @@ CHECKS = {
          "Every representation reachable from all intervals / From<Vec> inputs / sparse sets of a small window (and of windows at the isize extremes) under all operations and all window predicates is compared with a BTreeSet model on every transition and every observer; exhaustive within the window.",
          "Model is BTreeSet<i64>; window width 7 (quick) / 9 (thorough); full-width interval only through O(1) operations.",
          "4/C18"),
+ "C22": ("bounded-exhaustive statement sequences with an instrumented User type and per-statement probes x schedules (E3 x E2)",
+         "All ordered sequences of 2-3 == / != statements (incl. subsuming and multi-binding disequalities), sequences with a two-arm conde, and FD programs run with a User type counting with_constraint/take_constraint and logging process_extension; probes before/after every statement and every answer state: with - take == stored constraints; each successful == triggers process_extension once with exactly unify_rec's new bindings; the statements seen by an answer's user state form one program path (per-branch cloning).",
+         "Statement alphabet of 10 tree + 7 FD statements; d=1 quick / 2 thorough on the store iteration sites.",
+         "4/C22"),
 }
 NOT_APPLICABLE = {}
 
